@@ -347,6 +347,10 @@ fn main() {
             macros.push([b"\x1b[".to_vec(), b"9".repeat(30), b"m".to_vec()].concat());
             macros.push([b"\x1b".to_vec(), b" ".repeat(5), b"m".to_vec()].concat());
             macros.push([b"\x1b]".to_vec(), vec![b'a'; 5000], b"\x07".to_vec()].concat());
+            // strings beyond 2^16 bytes (offsets kept in narrow integers would wrap)
+            macros.push([b"\x1b]52;c;".to_vec(), vec![b'a'; 65536], b"\x07".to_vec()].concat());
+            macros.push([b"\x1b]0;".to_vec(), vec![b'a'; 35000], b";".to_vec(), vec![b'b'; 35000], b"\x1b\\".to_vec()].concat());
+            macros.push([b"\x1bP1q".to_vec(), vec![b'a'; 70000], b"\x1b\\".to_vec()].concat());
             for m in &macros {
                 for b in 0..=255u8 {
                     let mut inp = m.clone();
